@@ -60,7 +60,7 @@ def first(e, spelling):
     return p
 
 
-def seg_unit(v, seg, res, tier):
+def seg_unit(v, seg, res, tier, only_leaf_children=False):
     from hl7apy.core import Segment
     from hl7apy.exceptions import ChildNotFound, ChildNotValid
     if tables.segment_anomaly(v, seg) or seg == 'ANYHL7SEGMENT' or tables.row_anomalies(v, seg):
@@ -83,6 +83,10 @@ def seg_unit(v, seg, res, tier):
         if seg == 'MSH' and idx <= 2:
             continue
         lit = tables.literal(fr.datatype, v) if fr.kind == 'leaf' and tables.is_base(v, fr.datatype) else 'x'
+        if only_leaf_children:
+            if fr.kind == 'leaf' and tables.is_base(v, fr.datatype) and fr.card[1] != 0:
+                leaf_field_child(res, v, seg, idx, fr, new, viol, lit)
+            continue
         spell = [('name', fr.name), ('name-lower', fr.name.lower()), ('name-mixed', mixed(fr.name))]
         ln = usable_long(frows, fr, 'Segment')
         if ln in ('dup', 'reserved'):
@@ -131,14 +135,63 @@ def seg_unit(v, seg, res, tier):
                 viol('%s|%s|%s|%s|delete' % (v, seg, fr.name, dm), '%s (v%s): after delete through %r other spellings still see %r, segment %r' % (seg, v, d_, left, s.to_er7()))
             else:
                 res.classes['deleted-everywhere'] += 1
+        # the only child of a field of a base datatype: named after the datatype, or by position <field>_1
+        if fr.kind == 'leaf' and tables.is_base(v, fr.datatype) and fr.card[1] != 0:
+            leaf_field_child(res, v, seg, idx, fr, new, viol, lit)
         # components and subcomponents of this field
         if fr.kind != 'leaf':
             comp_paths(res, v, seg, idx, fr, new, viol)
             sibling_prefix_negatives(res, v, seg, idx, fr, new, viol)
             retyped_field(res, v, seg, idx, fr, new, viol)
+    if only_leaf_children:
+        res.dims['segments (children of base-datatype fields only)'] += 1
+        return
     # negative names
     negatives(res, v, seg, new, viol)
     res.dims['segments'] += 1
+
+
+def leaf_field_child(res, v, seg, idx, fr, new, viol, lit):
+    dt = fr.datatype
+    pos = '%s_1' % fr.name
+    spell = [('datatype', dt), ('datatype-lower', dt.lower()), ('datatype-mixed', mixed(dt)), ('positional', pos), ('positional-lower', pos.lower())]
+    if len(dt) < 2:
+        spell = [x for x in spell if x[0] != 'datatype-mixed']
+    for wm, w in spell:
+        res.evaluations += 1
+        res.enumerated += 1
+        res.states += 1
+        try:
+            s = new()
+            setattr(getattr(s, fr.name.lower()), w, lit)        # through the segment: the field does not exist yet
+            f = getattr(s, fr.name)[0]
+            ref_el = f.children[0]
+        except Exception as e:
+            viol('%s|%s|%s|leaf-child|%s|set|%s' % (v, seg, dt, wm, exc_class(e)), 'setting the %s child of %s (v%s) through %r raises %s: %s'
+                 % (dt, fr.name, v, w, exc_class(e), e))
+            continue
+        for rm, r in spell:
+            res.transitions += 1
+            res.nontrivial += 1 if rm != wm else 0
+            try:
+                p = getattr(f, r)
+                ok = len(p) == 1 and p[0] is ref_el and p[0].to_er7() == lit and len(f.children) == 1
+            except Exception as e:
+                viol('%s|%s|%s|leaf-child|%s|get|%s' % (v, seg, dt, rm, exc_class(e)), 'reading the %s child of %s (v%s) through %r raises %s: %s'
+                     % (dt, fr.name, v, r, exc_class(e), e))
+                continue
+            res.validated += 1
+            if not ok:
+                viol('%s|%s|%s|leaf-child|%s>%s|get' % (v, seg, dt, wm, rm), '%s (v%s): child written through %r, read through %r yields %r' % (fr.name, v, w, r, list(p)))
+            else:
+                res.classes['same-child'] += 1
+        res.transitions += 1
+        try:
+            delattr(f, spell[(spell.index((wm, w)) + 1) % len(spell)][1])
+            if len(f.children) or f.to_er7() != '':
+                viol('%s|%s|%s|leaf-child|%s|delete' % (v, seg, dt, wm), '%s (v%s): after deleting its only child the field still encodes %r' % (fr.name, v, f.to_er7()))
+        except Exception as e:
+            viol('%s|%s|%s|leaf-child|delete|%s' % (v, seg, dt, exc_class(e)), 'deleting the %s child of %s (v%s) raises %s: %s' % (dt, fr.name, v, exc_class(e), e))
 
 
 def comp_paths(res, v, seg, idx, fr, new, viol):
@@ -390,12 +443,21 @@ def units(tier):
             segs = segs[::3]
         for s in segs:
             us.append((v, s))
+        if tier == 'quick' and v not in ('2.5', '2.7'):
+            # the check of the children of base-datatype fields is cheap: every segment of every version
+            rest = [s for s in tables.segment_names(v) if s not in segs]
+            for i in range(0, len(rest), 25):
+                us.append((v, tuple(rest[i:i + 25]), 'leaf-children'))
     return us
 
 
 def run_unit(unit, tier):
     res = Result()
-    seg_unit(unit[0], unit[1], res, tier)
+    if len(unit) == 3:
+        for seg in unit[1]:
+            seg_unit(unit[0], seg, res, tier, only_leaf_children=True)
+    else:
+        seg_unit(unit[0], unit[1], res, tier)
     res.expected_size = res.enumerated
     return res
 
